@@ -137,17 +137,23 @@ def run(ctx):
     body += "Definition saver_unlocked_methods : list string := %s.\n" % g.lst([g.string(s) for s in unlocked])
     body += "Definition saver_locked_methods : list string := %s.\n" % g.lst([g.string(s) for s in locked])
     body += "Definition saver_shape_recognised : bool := %s.\n" % g.b(shape)
+    run_stmts = astfacts[0].get("runner_run_statements", ["<missing>"]) if astfacts else ["<ast translator did not run>"]
+    body += "(* AST fact: the statements of scenario.Runner.run (what the accessor Runner.VerifPrepareRun repeats) *)\n"
+    body += "Definition runner_run_statements : list string := %s.\n" % g.lst([g.string(x) for x in run_stmts])
     ok, so, se = ctx.coq_cases("Alias", body)
     ctx.oblige("astfact:no_process_global_writes", ok, "" if ok else "sites: %s" % sites)
     if not ok:
         ctx.broken.append("astfact:no_process_global_writes (process-global state written by non-test code: %s)" % sites)
     body2 = g.HEADER + "From CremGen Require Import Alias.\nOpen Scope string_scope.\n"
     body2 += "Lemma saver_lock_discipline : saver_unlocked_methods = [] /\\ saver_shape_recognised = true. Proof. split; reflexivity. Qed.\n"
+    body2 += ("Lemma runner_run_is_clone_setup_anneal : runner_run_statements = [\"annealerCopy := runner.annealer.DeepClone()\"; "
+              "\"runner.assignNewRunId(runNumber, annealerCopy)\"; \"runner.wireObservers(annealerCopy)\"; \"annealerCopy.Anneal()\"; "
+              "\"runner.logRunFinishedMessage(runNumber)\"]. Proof. reflexivity. Qed.\n")
     ok2, so2, se2 = ctx.coq_cases("AliasSaver", body2) if ok else (False, "", "gen/Alias.v did not compile")
-    ctx.oblige("astfact:saver_lock_discipline", ok2, "" if ok2 else "unlocked methods touching decompressionModel: %s; shape recognised: %s" % (unlocked, shape))
+    ctx.oblige("astfact:saver_lock_discipline", ok2, "" if ok2 else "unlocked methods touching decompressionModel: %s; shape recognised: %s; statements of Runner.run (must be clone, assignNewRunId, wireObservers, Anneal, log): %s" % (unlocked, shape, run_stmts))
     if not ok2:
         ctx.broken.append("astfact:saver_lock_discipline (scenario.Saver methods touching the shared decompressionModel without "
-                          "Lock(); defer Unlock(): %s; shape recognised: %s)" % (unlocked, shape))
+                          "Lock(); defer Unlock(): %s; shape recognised: %s; or Runner.run no longer has the statements the accessor VerifPrepareRun repeats: %s)" % (unlocked, shape, run_stmts))
 
     # ---- package-level variables touched by run code: translated from the current source, matched against the census
     import os, check as ck
